@@ -32,6 +32,23 @@ func cliCase(c *Case) (*Case, bool) {
 		if o.Wrap > 0 {
 			a = append(a, "--wrap", strconv.Itoa(o.Wrap))
 		}
+	case "topa":
+		a = []string{"sam", "toPairAlign", "-s", put("in.sam", "sam"), "-r", put("ref.fasta", "ref"), "-o", o.OutDir, "-t", th}
+		if o.Start > 0 {
+			a = append(a, "--start", strconv.Itoa(o.Start))
+		}
+		if o.End > 0 {
+			a = append(a, "--end", strconv.Itoa(o.End))
+		}
+		if o.Wrap > 0 {
+			a = append(a, "--wrap", strconv.Itoa(o.Wrap))
+		}
+		if o.OmitRef {
+			a = append(a, "--omit-reference")
+		}
+		if o.OmitIns {
+			a = append(a, "--skip-insertions")
+		}
 	case "variants":
 		a = []string{"variants", "--msa", put("msa.fasta", "msa"), "-r", o.RefID, "-a", put("anno."+o.AnnoSuffix, "anno"), "-t", th}
 		if o.Start > 0 {
